@@ -198,7 +198,8 @@ def main():
         rc, out = run(["go", "run", ".", "-repo", REPO, "-out", os.path.join(LEAN, "SlipVerif", "Gen")],
                       cwd=os.path.join(ROOT, "extract"), env=GOENV)
         reference_tables = []  # Gen modules replaced by their committed reference copy for this run
-        if rc == 3:
+        if rc != 0 and re.search(r"^EXTRACT-FAILED \S+: ", out, re.M):
+            # (`go run` maps the extractor's exit status 3 to 1, so the marker lines decide)
             # a generator no longer understands the source it reads (renamed table, changed literal
             # shape …): the tie of every property that depends on that module is broken. The other
             # modules were regenerated. Continue with the reference copy of the failed module so that
